@@ -36,7 +36,7 @@ ASSUMPTIONS = [
     "Dataset.copy() / inplace=False results are not required to keep appended-but-unused axes",
 ]
 MANDATORY = ["op:set-new", "op:set-replace", "op:reject", "op:del", "op:rename_ds", "op:rename_var", "op:dims", "op:set_axis", "op:axes_set",
-             "op:axes_set_int", "op:axes_set_renamed", "op:label", "op:append", "op:rename_keys", "op:rename_axes", "rename_axes:callable", "set_axis:callable-mixed-result-types", "op:copy", "op:derive",
+             "op:axes_set_int", "op:axes_set_renamed", "op:label", "op:append", "op:rename_keys", "op:rename_axes", "rename_axes:callable", "rename_keys:identity-entries", "label:through-a-variable", "label:attribute-shortcut-dataset", "label:attribute-shortcut-variable", "set_axis:callable-mixed-result-types", "op:copy", "op:derive",
              "start:constructed", "reject-after-accept", "replace-changes-dims", "axis-change-with-2-users", "reject:new-dim-first", "dims:permute-existing", "reject:truncated-labels", "reject:near-miss-labels"]
 
 NAMES = ["x", "y", "z", "w"]
@@ -434,10 +434,25 @@ def run_case(case):
             if len(m.users(d)) >= 2:
                 cl.add("axis-change-with-2-users")
 
-            def f():
-                ds.axes[d][i] = new
-            lib(f, what=what + " ds.axes[%r][%d] = %r" % (d, i, new), sig=sig)
-            m.axes[d] = [new if j == i else x for j, x in enumerate(cur)]
+            full = [new if j == i else x for j, x in enumerate(cur)]
+            users = m.users(d)
+            via = (b // 2 + c) % 4
+            if via == 1 and users:
+                kv = users[(a + b) % len(users)]
+                lib(lambda: ds[kv].axes[d].__setitem__(i, new), what=what + " ds[%r].axes[%r][%d] = %r (through a variable)" % (kv, d, i, new), sig=sig)
+                cl.add("label:through-a-variable")
+            elif via == 2 and d.isidentifier() and not hasattr(type(ds), d) and d not in ds.keys():
+                lib(lambda: setattr(ds, d, core.label_array(full)), what=what + " ds.%s = %r (attribute shortcut through the dataset)" % (d, full), sig=sig)
+                cl.add("label:attribute-shortcut-dataset")
+            elif via == 3 and users and d.isidentifier() and not hasattr(da.DimArray, d):
+                kv = users[(a + b) % len(users)]
+                lib(lambda: setattr(ds[kv], d, core.label_array(full)), what=what + " ds[%r].%s = %r (attribute shortcut through a variable)" % (kv, d, full), sig=sig)
+                cl.add("label:attribute-shortcut-variable")
+            else:
+                def f():
+                    ds.axes[d][i] = new
+                lib(f, what=what + " ds.axes[%r][%d] = %r" % (d, i, new), sig=sig)
+            m.axes[d] = full
             cl.add("op:label")
         elif op == "append":
             fresh = [d for d in NAMES + FRESH + SPARE if d not in m.axes]
@@ -459,7 +474,12 @@ def run_case(case):
                 check(set(r.keys()) == (set(m.vars) - {k}) | {new}, "rename_keys-copy", {"what": what, "got": list(r.keys())}, sig)
                 core.check_shared_axes(r, what + " [copy]", sig)
             else:
-                lib(lambda: ds.rename_keys({k: new}), what=what + " rename_keys({%s: %s})" % (k, new), sig=sig)
+                mp_k = collections.OrderedDict([(k, new)])
+                if e % 2:
+                    # a mapping built over ALL keys, most of which map onto themselves
+                    mp_k = collections.OrderedDict((kk, new if kk == k else kk) for kk in m.vars)
+                    cl.add("rename_keys:identity-entries")
+                lib(lambda: ds.rename_keys(dict(mp_k)), what=what + " rename_keys(%s)" % (dict(mp_k),), sig=sig)
                 m.vars = collections.OrderedDict(list((kk, vv) for kk, vv in m.vars.items() if kk != k) + [(new, m.vars[k])])
             cl.add("op:rename_keys")
         elif op == "derive":
